@@ -37,29 +37,31 @@ class Netmap(V.Family):
         if ring:
             self.tiers = {
                 "quick": dict(mc=[("NetmapMC.tla", "NetmapRing_quick.cfg")], mc_timeout=600,
-                              sim=("NetmapMC.tla", "NetmapRing_sim.cfg", 40, 46), sim_keep=40, nrand=15, shards=6,
-                              env=dict(VERIF_NRING=25, VERIF_NSYS=150)),
+                              sim=("NetmapMC.tla", "NetmapRing_sim.cfg", 40, 46), sim_keep=40, nrand=15, shards=8,
+                              env=dict(VERIF_NRING=20, VERIF_NSYS=150, VERIF_NLONG=8, VERIF_NLONGRING=30, VERIF_NMARATHON=2)),
                 "thorough": dict(mc=[("NetmapMC.tla", "NetmapRing_thorough.cfg"), ("NetmapMC.tla", "NetmapSubs_quick.cfg")],
                                  mc_timeout=3000,
-                                 sim=("NetmapMC.tla", "NetmapRing_sim.cfg", 600, 46), sim_keep=600, nrand=200, shards=14,
-                                 env=dict(VERIF_NRING=600, VERIF_NSYS=-2), drive_timeout=3400, monitor_timeout=3400),
+                                 sim=("NetmapMC.tla", "NetmapRing_sim.cfg", 400, 46), sim_keep=400, nrand=200, shards=16,
+                                 env=dict(VERIF_NRING=200, VERIF_NSYS=-2, VERIF_NLONG=100, VERIF_NLONGRING=300, VERIF_NMARATHON=12),
+                                 drive_timeout=3400, monitor_timeout=3400),
             }
         else:
             self.tiers = {
                 "quick": dict(mc=[("NetmapMC.tla", "Netmap_quick.cfg"), ("NetmapMC.tla", "NetmapDeep_quick.cfg"),
                                   ("NetmapMC.tla", "NetmapSubs_quick.cfg")], mc_timeout=900,
-                              sim=("NetmapMC.tla", "Netmap_sim.cfg", 120, 31), sim_keep=120, nrand=150, shards=6,
-                              env=dict(VERIF_NRING=6, VERIF_NSYS=12)),
+                              sim=("NetmapMC.tla", "Netmap_sim.cfg", 100, 31), sim_keep=100, nrand=100, shards=8,
+                              env=dict(VERIF_NRING=6, VERIF_NSYS=12, VERIF_NLONG=40, VERIF_NLONGRING=10, VERIF_NMARATHON=1)),
                 "thorough": dict(mc=[("NetmapMC.tla", "Netmap_thorough.cfg"), ("NetmapMC.tla", "NetmapDeep_thorough.cfg"),
                                      ("NetmapMC.tla", "NetmapSubs_thorough.cfg")], mc_timeout=3000,
                                  sim=("NetmapMC.tla", "Netmap_sim.cfg", 2000, 31), sim_keep=2000, nrand=3000, shards=14,
-                                 env=dict(VERIF_NRING=100, VERIF_NSYS=-1), drive_timeout=3400, monitor_timeout=3400),
+                                 env=dict(VERIF_NRING=100, VERIF_NSYS=-1, VERIF_NLONG=800, VERIF_NLONGRING=150, VERIF_NMARATHON=8),
+                                 drive_timeout=3400, monitor_timeout=3400),
             }
 
         if replay:
             # run_family passes the tier's env to the driver also when replaying: only the replayed scenario is wanted
             for t in self.tiers.values():
-                t["env"] = dict(VERIF_NRING=0, VERIF_NSYS=0)
+                t["env"] = dict(VERIF_NRING=0, VERIF_NSYS=0, VERIF_NLONG=0, VERIF_NLONGRING=0, VERIF_NMARATHON=0)
 
     def nontrivial_key(self, r, prev):
         o, po = r["obs"], (prev or r)["obs"]
@@ -75,13 +77,17 @@ class Netmap(V.Family):
             kind = k[0]
             place = "-"
             if kind == "k":
-                place = ("L" if po["legacy"][k]["ex"] else "") + ("S" if po["structured"][k]["ex"] else "") or "none"
+                l, t = po["legacy"][k], po["structured"][k]
+                place = ("L%d" % l["s"] if l["ex"] else "") + ("S%d" % t["s"] if t["ex"] else "") or "none"
             st = r["s"] if r["s"] in (1, 2, 3) else "bad"
             return (act, r["res"], alpha, k in S, kind, place, st, r["blk"])
         if act in ("newEpoch", "tickB"):
             d = r["x"] - po["epoch"]
             rel = "<" if d < 0 else "=" if d == 0 else "+1" if d == 1 else "jump"
-            return (act, r["res"], alpha, rel, len(po["subs"]), bool(set(po["subs"]) & set(po["rej"])), r["blk"], po["cnt"] == 0)
+            empt = lambda lst: not any(v["ex"] for v in lst.values())
+            wrapped = po["epoch"] > 0 and po["slot"][(po["cur"] + 1) % po["cnt"]]["m"] != [] if po["cnt"] > 0 else False
+            return (act, r["res"], alpha, rel, min(len(po["subs"]), 2), bool(set(po["subs"]) & set(po["rej"])), r["blk"], po["cnt"] == 0,
+                    empt(po["legacy"]), empt(po["structured"]), wrapped, len(str(r["x"])) if rel != "<" else 0)
         if act == "updateSnapshotCount":
             c, old, cur, ep = r["x"], po["cnt"], po["cur"], po["epoch"]
             direction = "neg" if c < 0 else "zero" if c == 0 else "same" if c == old else "grow" if c > old else "shrink"
